@@ -106,4 +106,12 @@ class Driver(Device, metaclass=DriverMeta):
                     self.send_message(v.to_def_message())
 
         if isinstance(msg, message.news.NewVector):
-            self._vectors[msg.name].from_new_message(msg)
+            vector = self._vectors.get(msg.name)
+            if vector is None:
+                logger.warning(
+                    "Driver %s: ignoring new value for unknown vector %s",
+                    self.name,
+                    msg.name,
+                )
+                return
+            vector.from_new_message(msg)
